@@ -115,6 +115,8 @@ type upConn struct {
 	// connection, or the byte stream would turn into decodable garbage that
 	// no property speaks about.
 	wedged bool
+	// pending: wire ids of the queries not answered yet (stream kinds)
+	pending []uint16
 }
 
 func NewUpServer(s *sim.Sim, w *vnet.World, seed uint64, spec plan.UpstreamSpec, tokens map[string]*plan.TokenSpec, pki *PKI) *UpServer {
@@ -312,6 +314,9 @@ func (u *UpServer) startUDP() error {
 type qctx struct{ sni, host, path string }
 
 type connCtl struct {
+	// split writes a, pauses, writes b - with nothing else written to the
+	// connection in between (stream kinds only)
+	split func(a []byte, pause time.Duration, b []byte)
 	fin func()
 	rst func()
 	raw func([]byte)
@@ -368,16 +373,25 @@ func (u *UpServer) serveStream(raw *vnet.StreamConn, cfg *tls.Config) {
 	uc := &upConn{id: u.connSeq, c: c, raw: raw}
 	u.conns[uc.id] = uc
 	u.mu.Unlock()
-	var wmu sync.Mutex
+	// (a channel, not a mutex: a writer may pause while it holds the connection,
+	// and goroutines waiting on a real mutex would stop the fake clock)
+	wsem := make(chan struct{}, 1)
 	write := func(b []byte) {
-		wmu.Lock()
+		wsem <- struct{}{}
 		c.Write(b)
-		wmu.Unlock()
+		<-wsem
 	}
 	ctl := connCtl{
 		fin: func() { c.Close() },
 		rst: func() { raw.Reset() },
 		raw: write,
+		split: func(a []byte, pause time.Duration, b []byte) {
+			wsem <- struct{}{}
+			defer func() { <-wsem }()
+			c.Write(a)
+			time.Sleep(pause)
+			c.Write(b)
+		},
 	}
 	for {
 		var h [2]byte
@@ -630,6 +644,7 @@ func (u *UpServer) handle(b []byte, proto string, conn int, qc qctx, reply func(
 	if uc := u.conns[conn]; uc != nil && proto != "udp" {
 		q.OutstandingBefore = uc.outstanding
 		uc.outstanding++
+		uc.pending = append(uc.pending, m.ID)
 	}
 	u.Queries = append(u.Queries, q)
 	spec := u.Tokens[q.Token]
@@ -652,6 +667,12 @@ func (u *UpServer) handle(b []byte, proto string, conn int, qc qctx, reply func(
 		u.mu.Lock()
 		if uc := u.conns[conn]; uc != nil && proto != "udp" && uc.outstanding > 0 {
 			uc.outstanding--
+			for i, id := range uc.pending {
+				if id == m.ID {
+					uc.pending = append(uc.pending[:i], uc.pending[i+1:]...)
+					break
+				}
+			}
 		}
 		u.mu.Unlock()
 	}
@@ -834,6 +855,52 @@ func (u *UpServer) handle(b []byte, proto string, conn int, qc qctx, reply func(
 				cut := 1 + act.Arg%max(1, len(f)-1)
 				ctl.raw(f[:cut])
 			}
+		case "stall_frame":
+			// One reply, delivered in two pieces with a pause in between that is
+			// longer than the proxy's idle time-out.  The second piece begins
+			// with bytes that, read on their own, are a complete framed message
+			// under the wire id of another query waiting on this connection (they
+			// sit inside a TXT record of the reply): a reader that carries on
+			// after its time-out instead of giving the connection up takes them
+			// for that query's answer.
+			b, ser, key := mkReply()
+			var victim uint16
+			found := false
+			u.mu.Lock()
+			if uc := u.conns[conn]; uc != nil {
+				for _, id := range uc.pending {
+					if id != q.WireID {
+						victim, found = id, true
+					}
+				}
+			}
+			u.mu.Unlock()
+			if ctl.split == nil || !found || len(b)+2 > 255 {
+				logReply("reply", ser, key, len(b))
+				reply(b)
+				done()
+				break
+			}
+			fake := append([]byte(nil), b...)
+			binary.BigEndian.PutUint16(fake, victim)
+			inner := binary.BigEndian.AppendUint16(nil, uint16(len(fake)))
+			inner = append(inner, fake...)
+			rm, err := refdns.Parse(b)
+			if err != nil {
+				logReply("reply", ser, key, len(b))
+				reply(b)
+				done()
+				break
+			}
+			rm.Ar = append(rm.Ar, refdns.RR{Name: q.Name, Type: refdns.TypeTXT, Class: q.Class, TTL: 1, Data: append([]byte{byte(len(inner))}, inner...)})
+			full := refdns.Pack(rm, PackOptsFor(ans.Compress))
+			f := binary.BigEndian.AppendUint16(nil, uint16(len(full)))
+			f = append(f, full...)
+			off := bytes.LastIndex(f, inner)
+			s.Fault("up_stall_inside_frame")
+			logReply("reply", ser, key, len(full))
+			ctl.split(f[:off], time.Duration(act.Arg)*time.Millisecond, f[off:])
+			done()
 		case "http_500":
 			s.Fault("up_http_500")
 			logReply("http500", 0, "", 0)
